@@ -1024,7 +1024,10 @@ class RTCPeerConnection(AsyncIOEventEmitter):
             oldTransports = set()
             slaveMids = bundle.items[1:]
             for transceiver in self.__transceivers:
-                if transceiver.mid in slaveMids and not transceiver._bundled:
+                if transceiver.mid in slaveMids and (
+                    not transceiver._bundled
+                    or transceiver.receiver.transport != primaryTransport
+                ):
                     if transceiver.receiver.transport != primaryTransport:
                         oldTransports.add(transceiver.receiver.transport)
                     transceiver.receiver.setTransport(primaryTransport)
@@ -1033,7 +1036,10 @@ class RTCPeerConnection(AsyncIOEventEmitter):
             if (
                 self.__sctp
                 and self.__sctp.mid in slaveMids
-                and not self.__sctp._bundled
+                and (
+                    not self.__sctp._bundled
+                    or self.__sctp.transport != primaryTransport
+                )
             ):
                 if self.__sctp.transport != primaryTransport:
                     oldTransports.add(self.__sctp.transport)
